@@ -500,8 +500,12 @@ func init() {
 		}
 		ctx, cancel := context.WithCancel(context.Background())
 		defer cancel()
-		if c := atoi(p["cancel"]); c >= 0 {
-			go func() { time.Sleep(time.Duration(c) * time.Millisecond); cancel() }()
+		// cancel=<ms>: the caller cancels that long after the run was started — armed right after t0 below, so that the
+		// cancellation instant and the return time are measured from the same origin
+		armCancel := func(t0 time.Time) {
+			if c := atoi(p["cancel"]); c >= 0 {
+				go func() { time.Sleep(time.Until(t0.Add(time.Duration(c) * time.Millisecond))); cancel() }()
+			}
 		}
 		// file mode: at every accepted tick (yield point pool.trigger.accepted, i.e. while a stage triggers)
 		// the stage's own parameters must be in the environment, nobody else's, and stages must not go backwards
@@ -587,6 +591,7 @@ func init() {
 		}()
 		defer close(hbStop)
 		t0 := time.Now()
+		armCancel(t0)
 		if sw != nil {
 			sw.t0 = t0
 		}
